@@ -12,7 +12,7 @@ ALL = ['C%02d' % i for i in range(1, 21)]
 
 
 def sh(cmd, cwd=None, timeout=900, env=None):
-    p = subprocess.run(cmd, shell=True, cwd=cwd, capture_output=True, text=True, timeout=timeout, env=env)
+    p = subprocess.run(cmd, shell=True, cwd=cwd, capture_output=True, text=True, errors='replace', timeout=timeout, env=env)
     return p.returncode, (p.stdout + p.stderr)
 
 
